@@ -12,6 +12,7 @@ d  HEAD responses write no body bytes
 """
 
 import ast
+import re
 
 from sa import AnalysisError, pat
 from sa import query as Q
@@ -36,6 +37,7 @@ def run(repo, chk):
     rule_response(repo, chk)
     rule_stream(repo, chk)
     rule_filegen(repo, chk)
+    rule_once(repo, chk)
 
 
 def rule_prepare(repo, chk):
@@ -337,3 +339,67 @@ def rule_filegen(repo, chk):
     chk.touch(b)
     ok = any(isinstance(n, ast.Assign) and isinstance(n.value, ast.Call) and call_name(n.value) == 'file_generator' for n in walk_no_defs(b.node))
     chk.ob('e', b.ref, 'file-like bodies are streamed through file_generator', ok, loc(b, b.node), discr='filelike-streamed', nontrivial=False)
+
+
+ERROR_EVENTS = ('httperror', 'redirect', 'forbidden', 'unauthorized', 'notfound')
+
+
+def rule_once(repo, chk):
+    """One failure, one error response: several handlers of HTTP can answer the same failed request (the exception handler, request_failure,
+    response_failure, and request_success for errors carried in a nested value); they share one once-only latch on the request."""
+    chk.rule('C15.f', 'every error answer produced for a failure of request processing (in the exception / *_failure handlers and in the error branches of '
+                      'request_success) is dominated by a test-and-set of the request\'s `handled` latch; when the latch is already set, '
+                      'response_failure gives up and closes instead of building another response')
+    cls = repo.cls(WEB_HTTP, 'HTTP')
+    n_sites = 0
+    for f in cls.methods.values():
+        if f.handler is None:
+            continue
+        names = set(f.handler.names)
+        failure_handler = bool(names & {'exception', 'request_failure', 'response_failure'})
+        success_handler = 'request_success' in names
+        if not (failure_handler or success_handler):
+            continue
+        chk.touch(f)
+        g = f.cfg()
+        sites = [(n, pat.event_ctor_name(e)) for n in g.nodes if n.kind == 'stmt' for _c, _r, e in pat.fire_calls(n.ast) if pat.event_ctor_name(e) in ERROR_EVENTS]
+        seen_txt = {}
+        for n, name in sorted(sites, key=lambda x: x[0].ast.lineno):
+            lab = _branch(g, n)
+            seen_txt[lab] = seen_txt.get(lab, 0) + 1
+            lab = f'{lab}#{seen_txt[lab]}'
+            if success_handler and not failure_handler:
+                # only answers derived from an error: dominated by `… .errors` being true or by the exc_info-tuple test
+                derived = pat.guarded_by(g, n, pat.test_edge(lambda tt, pol: pol == 'T' and (src(tt).endswith('.errors') or 'isinstance(value, tuple)' in src(tt)))) is None
+                if not derived:
+                    continue
+            n_sites += 1
+            tested = pat.guarded_by(g, n, pat.test_edge(lambda tt, pol: pol == 'F' and src(tt).endswith('.handled')))
+            sets = [m for m in g.nodes if m.kind == 'stmt' and any(a == 'handled' and src(v) == 'True' for _r, a, v in pat.attr_store(m.ast))]
+            set_ = Q.reachable_without(g, n, avoid_node=lambda m: m in sets)
+            chk.ob('f', f.ref, f'the `{name}` answer is given only if the request has not been answered with an error before, and records that it has now',
+                   tested is None and set_ is None, loc(f, n.ast), path=pat.path_lines(tested or set_) if (tested or set_) else None,
+                   discr=f'latched:{name}:{lab}')
+    need(n_sites >= 6, f'C15.f: only {n_sites} failure-answer sites found in HTTP, 9 confirmed by hand')
+    # exception handler leaves request/response events to their *_failure handlers (both would answer otherwise)
+    ex = cls.methods.get('_on_exception')
+    rf = cls.methods.get('_on_response_failure')
+    need(ex and rf, 'C15.f: HTTP._on_exception / _on_response_failure missing')
+    g = rf.cfg()
+    latch_T = [e for n in g.nodes if n.kind == 'test' and src(n.ast).endswith('.handled') for e in n.succ if e.kind == 'T']
+    closes = [n for n in g.nodes if n.kind == 'stmt' and any(pat.event_ctor_name(e) == 'close' for _c, _r, e in pat.fire_calls(n.ast))]
+    mk = [n for n in g.nodes if n.kind == 'stmt' and 'wrappers.Response(' in src(n.ast)]
+    ok = bool(latch_T) and bool(closes)
+    p = None
+    for e in latch_T:
+        p = p or (Q.escapes(g, [e.dst], lambda n: n in closes, exits=('exit',)) if e.dst not in closes else None)
+        seen, _ = Q.search([e.dst], exc=())
+        ok = ok and not any(m in seen for m in mk)
+    chk.ob('f', rf.ref, 'when the error response itself could not be sent, the connection is closed and no further response is built (no endless failure loop)',
+           ok and p is None, loc(rf, rf.node), path=pat.path_lines(p) if p else None, discr='failed-error-response-closes')
+
+
+def _branch(g, n):
+    """Short label of the innermost enclosing test of a node (for stable keys)."""
+    tests = [a for k, a in n.ctx if k in ('if', 'elif', 'test')]
+    return re.sub(r'[^A-Za-z0-9_.]+', '_', src(n.ast))[:60]
